@@ -106,6 +106,7 @@ func detProgram(r *Rng) detProg {
 			"[{{ leak }}]{% set leak = \"L\" %}{% with other=1 %}{% ssi \"/ssipart.tpl\" parsed %}{% endwith %}",
 			"{{ -1 + 2 }}{{ -2.5 * 2 }}{% for i in lst %}{{ -3 + n }}{% endfor %}",
 			"<{{ rec.Name }}|{{ rec.Email }}|{{ rec.ID }}|{{ rec.Label }}|{{ rec.PLabel }}|{{ rec.Extra }}>",
+			"{{ lst|slice:\"1:\" }}|{{ s|slice:\":2\" }}|{{ lst|slice:\"-2:\" }}|{{ z_ints|slice:\"1:\" }}|{{ s|truncatechars:3 }}|{{ lst|join:s }}|{{ s|center:9 }}|{{ lst|first }}{{ lst|last }}",
 			"{{ n * 2 }}|{{ d * 1.5 }}|{{ z_int * 2 }}|{{ z_int / 4 }}|{{ z_f64 * n }}|{% for x in z_ints %}{{ x * d }};{% endfor %}",
 		}
 		k := 1 + r.Intn(3)
@@ -227,6 +228,17 @@ func c04Run(c *C) {
 			}
 			c.Eval(1)
 		}
+		if r.Chance(15) {
+			// a delivery that breaks down: the caller's writer fails (or accepts only a part) while the page is handed over
+			fw := &recWriter{failAt: 1 + r.Intn(2), err: errors.New("c04: caller's writer is broken"), short: r.Intn(3)}
+			if r.Bool() {
+				used.ExecuteWriter(pool[r.Intn(len(pool))], fw)
+			} else {
+				used.ExecuteWriterUnbuffered(pool[r.Intn(len(pool))], fw)
+			}
+			c.Eval(1)
+			trace = append(trace, D{"step": i, "extra": "an ExecuteWriter/ExecuteWriterUnbuffered call whose writer failed"})
+		}
 		got, rawErr := detExecErr(used, pool[hist[i]], which)
 		if rawErr != nil {
 			if why := detErrorInSources(rawErr, p, nil); why != "" {
@@ -286,7 +298,7 @@ func init() {
 		},
 		Run: c04Run,
 		Rule: "random deterministic programs over every tag (no now without fake, random, lorem random, unsorted map iteration; one with-pair / default per construct because several are evaluated in Go's map order), with loader files (static and lazy includes, imports, inheritance, macros) and a high share of stateful-looking constructs (cycle, ifchanged, TrimBlocks-sensitive text, macros with cycle, includes that fail after writing); " +
-			"each is compiled once (FromFile or FromCache, options set on the set or on the template, all four TrimBlocks x LStripBlocks settings) and executed 2..8 times with contexts drawn with repetition from a pool of six (two equal, two failing, one nil) through alternating Execute entry points; after every execution the (output, error) pair is compared with that of a FRESH compile of the same sources executed exactly once with the same context. " +
+			"each is compiled once (FromFile or FromCache, options set on the set or on the template, all four TrimBlocks x LStripBlocks settings) and executed 2..8 times with contexts drawn with repetition from a pool of six (two equal, two failing, one nil) through alternating Execute entry points, with deliveries to a failing writer in between; after every execution the (output, error) pair is compared with that of a FRESH compile of the same sources executed exactly once with the same context. " +
 			"distinct_nontrivial = distinct programs with at least one successful execution in their history.",
 		MinNontriv:  1000,
 		Assumptions: []string{"only the dynamic half of the property is decided (no static write-effect analysis)", "documented non-determinism (clock, randomness, Go map order) is not generated"},
